@@ -9097,3 +9097,199 @@ func rulePageOffsetUnits(c *Ctx) {
 	}
 	c.Floor("positions taken in the in-memory header hash pages", n, 6)
 }
+
+// ruleRemovalMultiplicity (C08): the pool's conflicts index maps a hash named in Conflicts attributes to the pooled
+// transactions naming it. The writers append the transaction once *per attribute* and do not look whether it is
+// there already (a transaction may name one hash twice: the pool API and the wire format accept it), and the remover
+// runs once per attribute too - so each of its iterations has to take out exactly one occurrence. A remover that
+// takes out every occurrence in one iteration empties the list on the first of two attributes; the second iteration
+// then sees a list of length one - another transaction's entry - and deletes the whole key, although that transaction
+// is still pooled: the named transaction is admitted next to the one that conflicts with it. For every map-of-slices
+// index of the pool whose adders append without a membership test, the removal inside the per-attribute loop is a
+// single-element splice or slices.Delete of one position, never a removal of all matches.
+func ruleRemovalMultiplicity(c *Ctx) {
+	pk := c.P.Pkg("pkg/core/mempool")
+	if pk == nil {
+		return
+	}
+	info := pk.TypesInfo
+	isIndex := func(e ast.Expr) (string, bool) {
+		ix, ok := ast.Unparen(e).(*ast.IndexExpr)
+		if !ok {
+			return "", false
+		}
+		se, ok := ast.Unparen(ix.X).(*ast.SelectorExpr)
+		if !ok {
+			return "", false
+		}
+		v, ok := info.ObjectOf(se.Sel).(*types.Var)
+		if !ok || !v.IsField() {
+			return "", false
+		}
+		m, ok := v.Type().Underlying().(*types.Map)
+		if !ok {
+			return "", false
+		}
+		if _, ok := m.Elem().Underlying().(*types.Slice); !ok {
+			return "", false
+		}
+		return v.Name(), true
+	}
+	adders := map[string]int{} // field -> appends of one element
+	dedup := map[string]bool{} // field -> some adder tests membership first
+	type rem struct {
+		fn   string
+		pos  token.Pos
+		kind string
+	}
+	removers := map[string][]rem{}
+	for _, fd := range c.P.AllFuncDecls() {
+		if fd.Pkg != pk || fd.Decl.Body == nil {
+			continue
+		}
+		f := c.P.NewFuncCFG(fd)
+		ast.Inspect(fd.Decl.Body, func(x ast.Node) bool {
+			as, ok := x.(*ast.AssignStmt)
+			if !ok || len(as.Lhs) != 1 || len(as.Rhs) != 1 {
+				return true
+			}
+			fld, ok := isIndex(as.Lhs[0])
+			if !ok {
+				return true
+			}
+			call, ok := ast.Unparen(as.Rhs[0]).(*ast.CallExpr)
+			if !ok {
+				return true
+			}
+			switch sym := f.calleeSym(call); sym {
+			case "builtin.append":
+				if len(call.Args) == 2 && call.Ellipsis == token.NoPos {
+					if af, ok := isIndex(call.Args[0]); ok && af == fld {
+						adders[fld]++
+					}
+				} else if len(call.Args) == 2 && call.Ellipsis != token.NoPos {
+					// append(s[:i], s[i+1:]...): one element out
+					if sl, ok := ast.Unparen(call.Args[0]).(*ast.SliceExpr); ok {
+						if af, ok := isIndex(sl.X); ok && af == fld {
+							removers[fld] = append(removers[fld], rem{FuncKey(fd.Obj), as.Pos(), "splice"})
+						}
+					}
+				}
+			case "slices.Delete":
+				removers[fld] = append(removers[fld], rem{FuncKey(fd.Obj), as.Pos(), "one"})
+			case "slices.DeleteFunc":
+				removers[fld] = append(removers[fld], rem{FuncKey(fd.Obj), as.Pos(), "all"})
+			}
+			return true
+		})
+		ast.Inspect(fd.Decl.Body, func(x ast.Node) bool {
+			if call, ok := x.(*ast.CallExpr); ok && (f.calleeSym(call) == "slices.Contains" || f.calleeSym(call) == "slices.Index") && len(call.Args) >= 1 {
+				if fld, ok := isIndex(call.Args[0]); ok && adders[fld] > 0 {
+					dedup[fld] = true
+				}
+			}
+			return true
+		})
+	}
+	n := 0
+	var flds []string
+	for fld := range adders {
+		flds = append(flds, fld)
+	}
+	sort.Strings(flds)
+	for _, fld := range flds {
+		if dedup[fld] {
+			continue
+		}
+		for i, r := range removers[fld] {
+			n++
+			key := fmt.Sprintf("%s.%s#%d", fld, shortSym(r.fn), i+1)
+			if r.kind == "all" {
+				c.Fail(key, c.P.Pos(r.pos), fmt.Sprintf("%s takes every occurrence of the transaction out of Pool.%s[hash] at once, while the writers append one occurrence per Conflicts attribute without looking whether it is there already and the remover itself runs once per attribute: for a transaction that names a hash twice the first iteration leaves only the other transactions' entries, the second finds a list of length one and deletes the key - a pooled transaction's conflict is forgotten and the transaction it names is admitted next to it", r.fn, fld))
+			} else {
+				c.OK(key, c.P.Pos(r.pos), "one occurrence out per iteration, as one goes in per attribute")
+			}
+		}
+	}
+	c.Floor("appends to the pool's multimap indexes", len(adders), 1)
+	c.Floor("removals from the pool's multimap indexes", n, 1)
+}
+
+// ruleCheckNotCacheGated (C08): the per-payer record of the pool (balance, sum of fees) is a cache: it is filled when a
+// payer is seen for the first time and thrown away by every block. Whether a record was there decides whether to
+// *fill* it, never whether to *check*: the first transaction of a payer after a refresh is the one the new balance
+// has to be compared with (RemoveStale re-admits the pooled transactions against the balances after the block). No
+// condition that controls a checkBalance call mentions the presence flag of the fee cache.
+func ruleCheckNotCacheGated(c *Ctx) {
+	pk := c.P.Pkg("pkg/core/mempool")
+	if pk == nil {
+		return
+	}
+	info := pk.TypesInfo
+	n := 0
+	for _, fd := range c.P.AllFuncDecls() {
+		if fd.Pkg != pk || fd.Decl.Body == nil {
+			continue
+		}
+		f := c.P.NewFuncCFG(fd)
+		// presence flags: second result of getPayerFee, or of a comma-ok read of the fees map
+		flags := map[types.Object]bool{}
+		ast.Inspect(fd.Decl.Body, func(x ast.Node) bool {
+			as, ok := x.(*ast.AssignStmt)
+			if !ok || len(as.Lhs) != 2 || len(as.Rhs) != 1 {
+				return true
+			}
+			id, ok := as.Lhs[1].(*ast.Ident)
+			if !ok || id.Name == "_" {
+				return true
+			}
+			switch r := ast.Unparen(as.Rhs[0]).(type) {
+			case *ast.CallExpr:
+				if strings.HasSuffix(f.calleeSym(r), "mempool.getPayerFee") {
+					flags[info.ObjectOf(id)] = true
+				}
+			case *ast.IndexExpr:
+				if se, ok := ast.Unparen(r.X).(*ast.SelectorExpr); ok && se.Sel.Name == "fees" {
+					flags[info.ObjectOf(id)] = true
+				}
+			}
+			return true
+		})
+		var stack []ast.Node
+		k := 0
+		ast.Inspect(fd.Decl.Body, func(x ast.Node) bool {
+			if x == nil {
+				stack = stack[:len(stack)-1]
+				return true
+			}
+			stack = append(stack, x)
+			call, ok := x.(*ast.CallExpr)
+			if !ok || !strings.HasSuffix(f.calleeSym(call), "mempool.checkBalance") {
+				return true
+			}
+			n++
+			k++
+			key := fmt.Sprintf("%s.checkBalance#%d", shortSym(FuncKey(fd.Obj)), k)
+			bad := ""
+			for i := len(stack) - 2; i >= 0; i-- {
+				is, ok := stack[i].(*ast.IfStmt)
+				if !ok {
+					continue
+				}
+				ast.Inspect(is.Cond, func(y ast.Node) bool {
+					if id, ok := y.(*ast.Ident); ok && flags[info.ObjectOf(id)] {
+						bad = types.ExprString(is.Cond)
+					}
+					return true
+				})
+			}
+			if bad == "" {
+				c.OK(key, c.P.Pos(call.Pos()), "the balance check does not depend on whether the payer's record was cached")
+			} else {
+				c.Fail(key, c.P.Pos(call.Pos()), fmt.Sprintf("%s compares a transaction with its payer's balance only under `%s`, which mentions the presence flag of the fee cache: the cache is emptied by every block, so the first (highest-priority) transaction of each payer is re-admitted by RemoveStale without being compared with the balance the block left - it stays pooled with fees above the balance, and its reservation pushes out the cheaper transactions the payer can still afford", FuncKey(fd.Obj), bad))
+			}
+			return true
+		})
+	}
+	c.Floor("checkBalance calls in the pool", n, 2)
+}
